@@ -194,6 +194,15 @@ def run(ck):
                                                  ["open", "a.td", "class B;\n"], ["req", 3, "documentSymbol", "a.td"]],
         "every-request-kind-on-an-unknown-document": [["open", "a.td", "class A;\n"], ["idle"]] + [req(10 + j, k)[:3] + ["nowhere.td"] + req(10 + j, k)[4:] for j, k in enumerate(sorted(READS))]
                                                       + [["req", 99, "documentSymbol", "a.td"]],
+        # answers of every shape: null (empty document, nothing under the cursor), hover with documentation, symbols of every
+        # kind, completion items of every kind (keyword, type, class with snippet), a non-empty link list; then an orderly end
+        "answers-of-every-shape": [["open", "e.td", ""], ["idle"], ["req", 1, "completion", "e.td", 0, 0], ["req", 2, "hover", "e.td", 0, 0], ["req", 3, "documentSymbol", "e.td"],
+                                   ["open", "a.td", "include \"e.td\"\n// doc line one\n// doc line two\nclass A<int x>;\nclass T;\nclass B<T t, A a = A<1>> : A<2> { int f = 1; }\n"
+                                                    "multiclass M<int p> { def _q : A<p>; }\ndefset list<A> s = { def in_s : A<3>; }\ndefm dm : M<4>;\ndefvar v = 1;\n"],
+                                   ["idle"], ["req", 4, "hover", "a.td", 3, 6], ["req", 5, "documentSymbol", "a.td"], ["req", 6, "documentLink", "a.td"],
+                                   ["req", 7, "completion", "a.td", 5, 8], ["req", 8, "completion", "a.td", 5, 22], ["req", 9, "completion", "a.td", 5, 30],
+                                   ["req", 10, "foldingRange", "a.td"], ["req", 11, "inlayHint", "a.td", 0, 0, 12, 0], ["req", 12, "references", "a.td", 3, 6],
+                                   ["idle"], ["reqraw", 13, "shutdown", None], ["idle"], ["notify", "exit", None]],     # (the client waits for its answers before it ends the session)
         "position-far-outside-the-text": [["open", "a.td", "class A;\n"], ["idle"], ["req", 1, "hover", "a.td", 4000000000, 4000000000], ["req", 2, "completion", "a.td", 7, 0],
                                           ["req", 3, "inlayHint", "a.td", 0, 0, 4000000000, 0], ["req", 4, "documentSymbol", "a.td"]],
     }
